@@ -129,6 +129,7 @@ def plain_module(d):
         out.append("    impl scpi::StandardCommands for I {}")
     out.append("    #[scpi::interface(%s)]" % ', '.join(attrs))
     out.append("    impl I {")
+    out.append("        pub fn helper_first(&self) -> u8 { 3 }")
     for i, c in enumerate(d["cmds"]):
         out.append(handler(i, c, plain=True))
     out.append("    }")
@@ -173,8 +174,13 @@ def iface_module(d):
             out.append("    impl scpi::StandardCommands for I {}")
     out.append("    #[scpi::interface(%s)]" % ', '.join(attrs))
     out.append("    impl%s I%s {" % (("<const K: usize>", "<K>") if generic else ("", "")))
+    # items that are NOT commands live in the same impl block (constructor-like helper first, one in the middle)
+    out.append("        pub const HELPER_CONST: u8 = 3;")
+    out.append("        pub fn helper_first(&self) -> u8 { Self::HELPER_CONST }")
     for i, c in enumerate(d["cmds"]):
         out.append(handler(i, c))
+        if i == len(d["cmds"]) // 2:
+            out.append("        pub fn helper_middle(&mut self, x: u8) -> u8 { x.wrapping_add(self.helper_first()) }")
     out.append("    }")
     if generic:
         for k in d["Ks"]:
